@@ -229,7 +229,7 @@ def bounded(rep, tier):
     alias = {'el': 'gr', 'xi': 'gb'}
     for cc in sorted(euvat.MEMBER_STATES | {'el'}):
         m = vat_module(alias.get(cc, cc))
-        for x in corpus.valid_numbers(m.__name__, per):
+        for x in corpus.valid_numbers(m.__name__, per) + corpus.synth_valid(m.__name__, 6 if tier == 'quick' else 60):
             try:
                 v = m.compact(x)
             except Exception:      # noqa: B902
@@ -244,8 +244,8 @@ def bounded(rep, tier):
                     c = call_real(m.__name__ + ':validate', [__import__('stdnum.util', fromlist=['x']).clean(y, '').upper().strip()])
                     if c[0] != e[0]:
                         want = 'eu.vat %s but %s %s' % (e[0], m.__name__, c[0])
-                    elif c[0] == 'return' and not (e[1] == c[1] or e[1] == t[:2] + c[1]):
-                        want = 'eu.vat returns %r, constituent %r' % (e[1], c[1])
+                    elif c[0] == 'return' and e[1] != (c[1] if c[1].startswith(t[:2]) else t[:2] + c[1]):
+                        want = 'eu.vat returns %r, the member state validator %r (the prefix is attached exactly once)' % (e[1], c[1])
                     elif e[0] == 'return' and not e[1].startswith(t[:2]):
                         want = 'result %r does not carry the prefix' % e[1]
                 v_ = call_real('stdnum.vatin:validate', [y])
